@@ -46,7 +46,12 @@ def db_text(var_order, stmt, proof, earlier=None):
     floats = '\n'.join('%s-is-pattern $f #Pattern %s $.' % (v, v) for v in var_order)
     hdr = (HEADER % {'vars': ' '.join(vs) if vs else 'zz', 'floats': floats}).replace('\\\\', '\\')
     # an earlier provable statement over the same variables with its own label list: every compressed proof has its own table
-    pre = ''.join('pre%d $p |- %s $= ( %s ) %s $.\n' % (i, stmt, ' '.join(ls), body) for i, (ls, body) in enumerate(earlier or []))
+    pre = ''
+    for i, e in enumerate(earlier or []):
+        if e[0] == 'RAW':   # the very same proof text under a statement over other variables
+            pre += 'pre%d $p |- %s $= %s $.\n' % (i, e[2], e[1])
+        else:
+            pre += 'pre%d $p |- %s $= ( %s ) %s $.\n' % (i, stmt, ' '.join(e[0]), e[1])
     return hdr + pre + 'goal $p |- %s $= %s $.\n' % (stmt, proof)
 
 
@@ -152,6 +157,12 @@ def cases(draw):
     for _ in range(draw(st.sampled_from([0, 0, 1, 2]))):
         ls = draw(st.lists(LABEL.filter(lambda l: not l.endswith('-is-pattern')), max_size=5, unique=True))
         earlier.append([ls, ''.join(refmm.encode_num(draw(st.integers(1, max(1, m + len(ls))))) for _ in range(draw(st.integers(1, 4))))])
+    if len(names) >= 2 and used and draw(st.integers(0, 2)) == 0:
+        # an earlier lemma with the *identical* proof text whose statement uses the other variables: the same letters then
+        # denote other mandatory hypotheses
+        rot = {v: names[(names.index(v) + 1) % len(names)] for v in names}
+        stmt2 = ' '.join(rot.get(tok, tok) for tok in stmt.split())
+        earlier.insert(draw(st.integers(0, len(earlier))), ['RAW', proof, stmt2])
     return {'part': 'labels', 'order': order, 'used': used, 'stmt': stmt, 'labels': labels, 'plain': plain, 'proof': proof, 'earlier': earlier,
             'hashseeds': draw(st.lists(st.integers(0, 4000), min_size=0, max_size=0))}
 
